@@ -13,7 +13,7 @@ sys.path.insert(0, os.path.join(VERIF, "lib"))
 sys.path.insert(0, VERIF)
 
 # checks whose machinery exists but is not finished / reviewed yet are not claimed
-UNFINISHED = {"C02", "C07", "C08", "C11", "C15", "C20", "C21", "C24", "C26", "C27", "C29", "C31"}
+UNFINISHED = set()
 
 # Every checks/cNN.py that defines MANIFEST = {"level","technique","text","note","ref"} is claimed.
 CLAIMED = {}
